@@ -34,6 +34,12 @@ CHECKS.update({
         level_note="Trusted: audit owner table, the harness's flattening of its own shape description (exec.rs expected_ids).",
         technique="runtime monitoring: owner-table diff vs shape oracle, exhaustive small-shape sweep + scheduled episodes",
     ),
+    "C06": dict(
+        level_text="Exploration by runtime monitoring: random histories over the key-affecting vocabulary run in lock-step on two threads; after every step, inside every live guard and inside every running scoped closure the thread probes ThreadKey::get() and compares with an executable KeyModel (alive / not alive per thread). Found and fixed one genuine defect (a refused get() released the key).",
+        design_ref="DESIGN.md §3 C06",
+        level_note="Trusted: KeyModel (keyfam.rs, ~20 lines of transitions); the probe get()+drop restores the flag it found (true only since fix 0d590e4 — before it, the probe itself exposed the defect).",
+        technique="runtime monitoring: reference-model (KeyModel) lock-step comparison at the client boundary",
+    ),
     "C07": dict(
         level_text="Exploration by runtime monitoring: Boxed/Ref/Retrying::try_new verdicts are compared with a flattened-multiset oracle over harness lock ids for member lists with the duplicate pair at every pair of positions and in every alias form; accepted collections are locked and must hold exactly their leaves. The compile-gated half (new/new_ref accept only owning inputs) is checked by corpus programs under C15's lane.",
         design_ref="DESIGN.md §3 C07",
